@@ -12,6 +12,7 @@ mod obs;
 mod prng;
 mod proto;
 mod report;
+mod timer;
 
 pub struct Args {
     pub family: String,
@@ -91,6 +92,7 @@ fn main() {
         "c06" => int::run(&args, &mut model, "C06"),
         "c07" => int::run(&args, &mut model, "C07"),
         "c20" => http::run(&args, &mut model),
+        "c16" => timer::run(&args, &mut model),
         f => {
             eprintln!("unknown family {}", f);
             std::process::exit(2);
